@@ -36,7 +36,16 @@ CLAIMS = {
              "upper (index, start, end) nests in itself), the iffs c01_strat_ends_exact / c01_strat_trees_exact, and the Sentence "
              "forms; ingredients: the lower stratum never curtails and is exact from any upper context and any cache "
              "(c01_strat_low_exact), the joint cache-reuse invariant (c01_strat_reuse_complete), the cut on sized derivations with "
-             "low leaves as leaves (c01_strat_curtailed_covers). PARTIAL: a non-monotone operator ABOVE a left-recursive rule "
+             "low leaves as leaves (c01_strat_curtailed_covers). WITH TRIMS (Props/C01W.lean): the exact trim meaning DerivesW "
+             "(LeftTrim skips the maximal run and accepts per mode, RightTrim moves the result's end over the maximal run) is returned "
+             "exactly for the monotone fragment plus LeftTrim (any mode) / RightTrim / Trim: c01w_sound, c01w_reuse_complete, "
+             "c01w_curtailed_covers (counters carried across skipped whitespace NEVER lose a derivation - this is what the '+1' in "
+             "memoize.go's bound pays for; with '+0' the real library rejects ' b' for P -> P b | LeftTrim(P) | eps), "
+             "c01w_complete_ends / _trees, c01w_ends_exact / _trees_exact, Sentence forms. Its scope excludes two deviations of "
+             "text/trim.go found by these proofs and replayed on the Go library (observations O5/O6 in DESIGN.md, outside every listed "
+             "property's quantifier): RightTrim with a REJECTING mode over several alternatives applies the last alternative's "
+             "whitespace verdict to all (c01w_F1_loses / _accepts); LeftTrim with a rejecting mode over an Optional accepts the "
+             "violating run (c01w_F2_accepts). PARTIAL: a non-monotone operator ABOVE a left-recursive rule "
              "(e.g. Many(E ';')) or a lower stratum that refers back to the upper one has no least-fixpoint meaning in general, and "
              "Name/Single over Optional is known finding D9; there completeness is decided per case by the harness's independent "
              "least-fixpoint derivation table and the model/implementation differential - bounded exploration.",
